@@ -87,6 +87,20 @@ BehFile ==
 \* A tiny set for the three-list configuration.
 BehTiny == {OkB(T1), OkB(T2), B("connError", <<>>, 0, ""), B("cutMidLine", TCUT, 4, "cl")}
 
+\* Line length through the real download-and-store path: rule lines of
+\* 4095 .. 65535 bytes with short lines before and after them.
+TLa == <<"R1", "LF", "L4095", "LF", "R2", "LF">>
+TLb == <<"R2", "LF", "L4096", "LF">>
+TLc == <<"R1", "LF", "R2", "CR", "LF", "L4097", "LF", "R1", "LF">>
+TLd == <<"R1", "LF", "L5K", "LF", "R2", "LF", "L40K", "LF", "R2">>
+TLe == <<"HASH", "LF", "R2", "LF", "L65535", "LF", "R1", "LF">>
+LongTexts == {TLa, TLb, TLc, TLd, TLe}
+BehLong ==
+    {OkB(t) : t \in LongTexts \cup {T1}}
+    \cup {B("connError", <<>>, 0, ""), B("cutMidLine", TLd, 6, "cl"), B("cutAtLineBoundary", TLe, 4, "chunked")}
+BehLongSched == {OkB(TLa), OkB(TLd), OkB(TLe), OkB(T1), B("cutMidLine", TLd, 6, "cl")}
+BehLongFile  == {OkB(t) : t \in LongTexts} \cup {B("missingLocal", <<>>, 0, "")}
+
 \* Configurations.
 AllOn     == [l \in Lists |-> TRUE]
 AllHTTP   == [l \in Lists |-> "http"]
@@ -95,11 +109,15 @@ ConfMixed == ConfHTTP
     \cup {[enabled |-> AllOn, src |-> [AllHTTP EXCEPT ![l] = "file"], cosm |-> CosmC] : l \in Lists}
     \cup {[enabled |-> [AllOn EXCEPT ![l] = FALSE], src |-> AllHTTP, cosm |-> CosmC] : l \in Lists}
 
-ASSUME \A b \in BehFull \cup BehSched \cup BehFile \cup BehTiny : WellFormed(b)
+ConfLong == ConfHTTP
+    \cup {[enabled |-> AllOn, src |-> [AllHTTP EXCEPT ![l] = "file"], cosm |-> CosmC] : l \in BlockLists}
+
+AllBeh == BehFull \cup BehSched \cup BehFile \cup BehTiny \cup BehLong \cup BehLongSched \cup BehLongFile
+ASSUME \A b \in AllBeh : WellFormed(b)
 \* In this universe every behaviour has exactly one outcome, so that every
 \* emitted edge has exactly one destination (the soft parser cases are
 \* covered by RuleList.tla and by trace validation).
-ASSUME \A b \in BehFull \cup BehSched \cup BehFile \cup BehTiny, c \in BOOLEAN :
+ASSUME \A b \in AllBeh, c \in BOOLEAN :
            Cardinality(Outcomes([cosm |-> c], b)) = 1
 
 ------------------------------------------------------------------------------
